@@ -263,6 +263,31 @@ def _bag_case(item):
     return rec
 
 
+def _empty_case(nc):
+    """a line whose logit matrix has zero frames: the confidence PageParser reports for it is still a number in [0, 1]"""
+    from pero_ocr.core.layout import PageLayout, RegionLayout, TextLine
+    from pero_ocr.document_ocr.page_parser import PageParser
+    rec = {"kind": "empty", "nc": nc, "outcome": "ok", "cmp": 0, "over": 0}
+    try:
+        line = TextLine(id="l", logits=sp.csc_matrix(np.zeros((0, nc))), characters=ALPHABET[:nc - 1] + ["~"], transcription="")
+        vals = [float(PageParser.compute_line_confidence(line))]
+        page = PageLayout(id="p", page_size=(10, 10))
+        region = RegionLayout("r", np.array([[0, 0], [9, 0], [9, 9], [0, 9]]))
+        region.lines.append(line)
+        page.regions.append(region)
+        pp = PageParser.__new__(PageParser)
+        pp.update_confidences(page)
+        vals.append(float(line.transcription_confidence))
+        if any(v != v for v in vals):
+            rec["outcome"] = "exception:NaN"
+            return rec
+        rec["cmp"] = _m6(vals[0])
+        rec["over"] = _u12(max(max(v - 1.0 for v in vals), max(-v for v in vals)))
+    except Exception as ex:
+        rec["outcome"] = "exception:" + type(ex).__name__
+    return rec
+
+
 WIDE_VIS = (0.0, -3.0, -40.0, -400.0, -800.0, -1500.0)
 WIDE_LM = (None, -0.5, -20.0, -300.0, -900.0)
 WIDE_WEIGHTS = (0.0, 0.5, 1.0, 2.0, 80.0)
@@ -488,6 +513,12 @@ def run(ctx):
         ctx.count(1, ("widebag", tuple(tr["vis"]), tuple(tr["lms"]), tr["weight"]) if len(tr["vis"]) > 1 else None)
     ctx.sample({"config": "bag", "trace": traces[len(traces) // 2]}, limit=6)
     judge(ctx, c, traces, _what_bag, "wide-range bags of hypotheses")
+    # lines without a single frame
+    traces = [_empty_case(nc) for nc in (2, 3, 5)]
+    for tr in traces:
+        ctx.count(1, None)
+    judge(ctx, c, traces, lambda tr: "line with a 0 x %d logit matrix: compute_line_confidence / update_confidences give %s (millionths), over=%s, outcome=%s" % (
+        tr["nc"], tr["cmp"], tr["over"], tr["outcome"]), "zero-frame lines")
     # word and line confidences as reported by the ALTO export
     items = [(cs, (ctx.seed % 1000) * 1000000 + i) for i, cs in enumerate(alto_cases(ctx.rng, 120 if ctx.tier == "quick" else 800))]
     ctx.exhaustive = False       # the ALTO cases are a seeded sample of the per-character weight combinations
@@ -512,6 +543,8 @@ def replay(ctx, case):
     elif tr["kind"] == "alto":
         traces = [_alto_case(((tr["text"], tuple(tr["combo"])), tr["seed"]))]
         judge(ctx, c, traces, _what_alto)
+    elif tr["kind"] == "empty":
+        judge(ctx, c, [_empty_case(tr["nc"])], lambda t: "line with a 0 x %d logit matrix: %s" % (t["nc"], t))
     else:
         scale = tr["scale"] if tr["has_lm"] else "none"
         traces = [_wide_bag_case(tr["seed"])] if tr.get("wide") else [_bag_case(((tuple(tr["v"]), tuple(tr["lm"]), scale), tr["seed"]))]
